@@ -69,6 +69,33 @@ def stream_state(which):
     return 'orig' if cur is ORIG[which] else 'other'
 
 
+# ---------------------------------------------------------------- globals
+
+def snapshot_globals():
+    """Interpreter-global state the runner may touch (C18), as comparable
+    strings keyed by the names used in spec/GlobalState.tla."""
+    import gc
+    import traceback as tb
+    import warnings
+    return {
+        'gcThreshold': repr(gc.get_threshold()),
+        'gcDebug': repr(gc.get_debug()),
+        'tbFormat': 'id%d' % id(tb.format_exception),
+        'tbPrint': 'id%d' % id(tb.print_exception),
+        'sysTrace': repr(sys.gettrace()),
+        'thrTrace': repr(getattr(threading, '_trace_hook', None)),
+        'settraceFn': 'id%d' % id(sys.settrace),
+        # CPython >= 3.12: cProfile registers as a sys.monitoring tool
+        'sysProfile': repr((sys.getprofile(),
+                            sys.monitoring.get_tool(sys.monitoring.PROFILER_ID)
+                            if hasattr(sys, 'monitoring') else None)),
+        'warnFilters': repr([repr(f) for f in warnings.filters]),
+        'showwarning': 'id%d' % id(warnings.showwarning),
+        'stdout': 'id%d' % id(sys.stdout),
+        'stderr': 'id%d' % id(sys.stderr),
+    }
+
+
 # ---------------------------------------------------------------- exceptions
 
 class WorldError(Exception):
@@ -453,7 +480,8 @@ class World:
                               dc=a.get('stream', 'stdout') in self.tampered)
                 continue
             if self.spec.get('ref_mode') and kind in (
-                    'tstart', 'trelease', 'crash', 'signal', 'wait', 'sleep'):
+                    'tstart', 'trelease', 'crash', 'signal', 'wait', 'sleep',
+                    'snap', 'fiddle', 'kbint'):
                 continue
             if kind == 'ok':
                 continue
@@ -471,6 +499,15 @@ class World:
                 raise KeyboardInterrupt()
             elif kind == 'write':
                 self._write(a, tid)
+            elif kind == 'snap':
+                self.log.emit('Snap', t=tid, g=snapshot_globals())
+            elif kind == 'fiddle':
+                # the test changes warnings state for itself
+                import warnings
+                if a.get('what') == 'showwarning':
+                    warnings.showwarning = lambda *a_, **k_: None
+                else:
+                    warnings.simplefilter('ignore', ResourceWarning)
             elif kind == 'redirect':
                 # the test replaces a std stream with an object of its own
                 x = a.get('stream', 'stdout')
